@@ -19,6 +19,9 @@ for p in sorted(glob.glob(os.path.join(os.path.dirname(__file__), "..", "seeded"
     status = "caught" if cr.get("caught") else "MISSED"
     if first is not None and not first.get("caught") and cr.get("caught"):
         status = "missed at first, caught after the extension"
+    if m.get("obsolete"):
+        status = "no longer a breaking change (see note)"
+        extra = m["obsolete"]
     rows.append((m["property"], name, summ, status, mech, extra or ""))
 print("| property | change | what was changed | quick check | mechanisms reported | check extended because of it |")
 print("|---|---|---|---|---|---|")
@@ -27,3 +30,4 @@ for r in rows:
 print()
 print("%d seeded changes; %d caught by the property's quick check as it stood when the change arrived, %d only after the check was extended, %d missed."
       % (len(rows), sum(1 for r in rows if r[3] == "caught"), sum(1 for r in rows if r[3].startswith("missed at first")), sum(1 for r in rows if r[3] == "MISSED")))
+print("%d change(s) stopped being property-breaking when a genuine defect they depended on was repaired." % sum(1 for r in rows if r[3].startswith("no longer")))
